@@ -100,6 +100,8 @@ pub struct M {
   pub keys: Vec<u8>,
   pub ops: Vec<Op>,
   pub max_arrivals: usize,
+  /// ResourceLimits::max_samples_per_instance set next to History (None: no resource limits)
+  pub per_instance_limit: Option<i32>,
 }
 
 struct Shared {
@@ -295,7 +297,7 @@ impl Model for M {
     format!("{}: history {}, {} writers, instances {:?}, {} access forms, <= {} arrivals", self.name, if self.depth == 0 { "KeepAll".into() } else { format!("KeepLast({})", self.depth) }, self.writers, self.keys, self.ops.len(), self.max_arrivals)
   }
   fn run(&self, hist: &[Ev]) -> Outcome<Ev> {
-    let mut sim = SimDds::new(self.depth, true);
+    let mut sim = SimDds::new_with_limits(self.depth, true, self.per_instance_limit);
     let mut sh = Shared { arrivals: BTreeMap::new(), taken: BTreeSet::new(), read_flag: BTreeSet::new() };
     let mut cands: Vec<Cand> = vec![Cand::default()];
     let mut batch: Vec<Arr> = vec![];
@@ -492,11 +494,13 @@ pub fn configs(tier: &str) -> Vec<(M, BfsCfg)> {
   let t = tier == "thorough";
   let mk = |d: usize, wall: f64| BfsCfg { max_depth: d, threads: 16, wall_cap_s: wall, state_cap: 20_000_000, merge: true };
   vec![
-    (M { name: "S-all".into(), depth: 0, writers: 1, keys: vec![1, 2], ops: all_ops(), max_arrivals: 3 }, mk(if t { 6 } else { 5 }, if t { 900.0 } else { 15.0 })),
-    (M { name: "S-core-KeepLast1".into(), depth: 1, writers: 1, keys: vec![1, 2], ops: core_ops(), max_arrivals: 4 }, mk(if t { 8 } else { 6 }, if t { 900.0 } else { 12.0 })),
-    (M { name: "S-core-KeepLast2".into(), depth: 2, writers: 1, keys: vec![1], ops: core_ops(), max_arrivals: 5 }, mk(if t { 9 } else { 7 }, if t { 900.0 } else { 12.0 })),
-    (M { name: "D-core-KeepAll".into(), depth: 0, writers: 2, keys: vec![1, 2], ops: core_ops(), max_arrivals: 4 }, mk(if t { 7 } else { 5 }, if t { 900.0 } else { 15.0 })),
-    (M { name: "D-core-KeepLast2".into(), depth: 2, writers: 2, keys: vec![1], ops: core_ops(), max_arrivals: 4 }, mk(if t { 7 } else { 6 }, if t { 900.0 } else { 12.0 })),
+    (M { name: "S-all".into(), depth: 0, writers: 1, keys: vec![1, 2], ops: all_ops(), max_arrivals: 3, per_instance_limit: None }, mk(if t { 6 } else { 5 }, if t { 900.0 } else { 15.0 })),
+    (M { name: "S-core-KeepLast1".into(), depth: 1, writers: 1, keys: vec![1, 2], ops: core_ops(), max_arrivals: 4, per_instance_limit: None }, mk(if t { 8 } else { 6 }, if t { 900.0 } else { 12.0 })),
+    (M { name: "S-core-KeepLast2".into(), depth: 2, writers: 1, keys: vec![1], ops: core_ops(), max_arrivals: 5, per_instance_limit: None }, mk(if t { 9 } else { 7 }, if t { 900.0 } else { 12.0 })),
+    // History depth next to a larger per-instance resource limit: the depth decides
+    (M { name: "S-core-KeepLast1-ResourceLimits3".into(), depth: 1, writers: 1, keys: vec![1, 2], ops: core_ops(), max_arrivals: 4, per_instance_limit: Some(3) }, mk(if t { 7 } else { 5 }, if t { 900.0 } else { 10.0 })),
+    (M { name: "D-core-KeepAll".into(), depth: 0, writers: 2, keys: vec![1, 2], ops: core_ops(), max_arrivals: 4, per_instance_limit: None }, mk(if t { 7 } else { 5 }, if t { 900.0 } else { 15.0 })),
+    (M { name: "D-core-KeepLast2".into(), depth: 2, writers: 2, keys: vec![1], ops: core_ops(), max_arrivals: 4, per_instance_limit: None }, mk(if t { 7 } else { 6 }, if t { 900.0 } else { 12.0 })),
   ]
 }
 
